@@ -495,6 +495,8 @@ fn query_items(items: &[Item], scratch: &std::path::Path, quick: bool) -> Vec<It
         if let Some(ix) = index_of(&data, scratch) {
             out.push(data);
             out.push(ix);
+        } else if std::env::var_os("C16_DEBUG_ITEMS").is_some() {
+            eprintln!("c16: cannot index {}", data.name);
         }
     };
     let split_header = |h: &[u8]| -> Vec<Vec<u8>> { h.chunks(60_000).map(|c| c.to_vec()).collect() };
@@ -596,12 +598,43 @@ fn query_items(items: &[Item], scratch: &std::path::Path, quick: bool) -> Vec<It
                 item.bytes = bytes;
                 Some(item)
             }
-            _ => None,
+            other => {
+                if std::env::var_os("C16_DEBUG_ITEMS").is_some() {
+                    eprintln!("c16: cannot write {name}: {:?}", other.map_err(|p| p.sig));
+                }
+                None
+            }
         }
     };
-    for (name, text) in [("bcf/c16-q-sv-spans-from-info-end-v4.3", &v43), ("bcf/c16-q-sv-spans-from-info-svlen-v4.5", &v45), ("bcf/c16-q-records-at-pos-0-telomere", &vtel)] {
+    for (name, text) in [("bcf/c16-q-sv-spans-from-info-end-v4.3", &v43), ("bcf/c16-q-sv-spans-from-info-svlen-v4.5", &v45)] {
         if let Some(item) = written(Kind::Bcf, name, text, 2) {
             push(item, &mut out);
+        }
+    }
+    // records at POS 0 (telomere): the sync BCF indexer rejects them, so the index is built over a twin file with the same
+    // byte layout (POS 1 instead of POS 0, stored members) and paired with the POS-0 file
+    {
+        let twin = vtel.replace("\t0\t", "\t1\t");
+        if let (Some(a), Some(b)) = (written(Kind::BcfRaw, "bcfraw/c16-tmp-tel0", &vtel, 0), written(Kind::BcfRaw, "bcfraw/c16-tmp-tel1", &twin, 0)) {
+            if let (Some(ba), Some(bb)) = (corpus::record_boundaries_in_payload(&a), corpus::record_boundaries_in_payload(&b)) {
+                if ba == bb && a.bytes.len() == b.bytes.len() {
+                    let blocks = |bytes: &[u8]| -> Vec<Vec<u8>> {
+                        let mut v = vec![bytes[..ba[0]].to_vec()];
+                        for w in ba.windows(2) {
+                            v.push(bytes[w[0]..w[1]].to_vec());
+                        }
+                        v
+                    };
+                    let data = Item { kind: Kind::Bcf, name: "bcf/c16-q-records-at-pos-0-telomere".into(), bytes: obgzf::build_file(&blocks(&a.bytes), obgzf::Enc::Stored, 1), side: corpus::Side::default() };
+                    let twin_item = Item { kind: Kind::Bcf, name: data.name.clone(), bytes: obgzf::build_file(&blocks(&b.bytes), obgzf::Enc::Stored, 1), side: corpus::Side::default() };
+                    if data.bytes.len() == twin_item.bytes.len() {
+                        if let Some(ix) = index_of(&twin_item, scratch) {
+                            out.push(data);
+                            out.push(ix);
+                        }
+                    }
+                }
+            }
         }
     }
     // rlen = length of REF although INFO END says otherwise: patch the raw BCF, one member per record
@@ -1361,7 +1394,32 @@ fn run_qy(o: &mut CaseOut, data: &Item, index: &Item, mode: qy::Mode, qseed: u64
                         }
                         _ => "state-dependent-operation",
                     };
-                    let sig = format!("{sig_prefix}:{class}:{qclass}:{fresh}");
+                    let mut sig = format!("{sig_prefix}:{class}:{qclass}:{fresh}");
+                    if mode == qy::Mode::BcfCsi {
+                        // root cause: the async BCF query filter is a different function than the sync one. Recognised when
+                        // the async answer is the sync answer minus some records; named after the first missing record
+                        let recs = |t: &[String]| t.iter().filter(|s| s.starts_with("R:")).cloned().collect::<Vec<_>>();
+                        let (er, gr) = (recs(e), recs(g));
+                        // first record of the sync answer that the async answer lacks altogether, the async answer going on with a
+                        // later record of the sync answer (a partially consumed stream yields the same NUMBER of records, shifted)
+                        let j = (0..er.len()).find(|&j| gr.get(j) != Some(&er[j]));
+                        let missing = j.filter(|&j| !gr.contains(&er[j]) && gr.get(j).map(|x| er[j + 1..].contains(x)).unwrap_or(true)).map(|j| &er[j]);
+                        {
+                            if let Some(m) = missing {
+                                let cols: Vec<&str> = m[2..].split('\t').collect();
+                                let why = if cols.get(1) == Some(&"0") {
+                                    Some("record-without-start-position")
+                                } else if cols.get(7).map(|i| i.contains("END=") || i.contains("SVLEN=")).unwrap_or(false) {
+                                    Some("record-span-from-info-end-or-svlen-not-rlen")
+                                } else {
+                                    None
+                                };
+                                if let Some(why) = why {
+                                    sig = format!("{sig_prefix}:async-filter-misses-record:{why}");
+                                }
+                            }
+                        }
+                    }
                     if sigs.contains(&sig) {
                         continue;
                     }
